@@ -132,6 +132,13 @@ Theorem C14_clear_lookup : forall t n k,
 Proof. exact clear_lookup. Qed.
 Print Assumptions C14_clear_lookup.
 
+(* Every key of a table built from the default one by Set/SetBg/Clear/ClearAll is the
+   wildcard or a well-formed command. *)
+Theorem C14_table_keys : forall v ops k h,
+  lookup k (apply_ops v (default_table v) ops) = Some h -> k = ctcp_wildcard \/ ctcp_tag k.
+Proof. exact table_keys. Qed.
+Print Assumptions C14_table_keys.
+
 (* CTCP.call with ANY table: the wildcard handler's output, then the output of the command's
    handler - or, when there is none, what the library itself adds (lib_errmsg): *)
 Theorem C14_call_structure : forall t c,
